@@ -60,6 +60,8 @@ impl<'a> TryFoldInto<'a, EnumTerm, FoldError> for Term {
     type Folder = EnumNarseseFormat<&'a str>;
 
     fn try_fold_into(self, folder: &Self::Folder) -> FoldResult<EnumTerm> {
+        #[cfg(narsese_verif)]
+        crate::verif_hooks::yield_point(3);
         match self {
             // 原子词项
             Term::Atom { prefix, name } => fold_atom(folder, prefix, name),
